@@ -23,6 +23,16 @@ type c02Epoch struct {
 	Outcome string `json:"outcome"`
 	Waiters int    `json:"waiters"`
 	Variant string `json:"variant"` // parked | held_registered | held_registered_purge | late | waiter_client_abort
+	// FetcherHdr: the request that becomes the fetcher carries conditional / Range headers (they are
+	// withheld from the upstream on a cold fetch; the fetch must complete like any other)
+	FetcherHdr string `json:"fetcher_header,omitempty"`
+}
+
+var c02FetcherHdrs = map[string][2]string{
+	"range":             {"Range", "bytes=0-9"},
+	"if_range":          {"If-Range", `"nope"`},
+	"if_none_match":     {"If-None-Match", `"nope"`},
+	"if_modified_since": {"If-Modified-Since", "Mon, 02 Jan 2006 15:04:05 GMT"},
 }
 
 func pikeGoroutines() []string {
@@ -112,11 +122,22 @@ func c02History(r *hx.Run, w *W, rnd *rand.Rand, hi int, epochs []c02Epoch) {
 		fetcherClient := hx.NewClient(w.Clock.Now)
 		go func() {
 			defer close(doneF)
+			frq := rq
 			if ep.Outcome == "corrupt_gzip" {
-				resF = fetcherClient.Do(rqGzip) // otherwise Go's transport would ask for gzip itself and fail to decode
-			} else {
-				resF = fetcherClient.Do(rq)
+				frq = rqGzip // otherwise Go's transport would ask for gzip itself and fail to decode
 			}
+			if kv, ok := c02FetcherHdrs[ep.FetcherHdr]; ok {
+				h := http.Header{}
+				for k, v := range frq.Header {
+					h[k] = v
+				}
+				h.Set(kv[0], kv[1])
+				if kv[0] == "If-Range" {
+					h.Set("Range", "bytes=0-9")
+				}
+				frq.Header = h
+			}
+			resF = fetcherClient.Do(frq)
 		}()
 		if !hx.WaitUntil(15*time.Second, func() bool { return w.Farm.InflightKey(key) >= 1 }) {
 			r.InconclusiveCase("C02: fetcher did not reach the origin")
@@ -335,7 +356,7 @@ func c02History(r *hx.Run, w *W, rnd *rand.Rand, hi int, epochs []c02Epoch) {
 	}
 	sig := ""
 	for _, e := range epochs {
-		sig += e.Outcome + "/" + e.Variant + fmt.Sprint(e.Waiters) + ","
+		sig += e.Outcome + "/" + e.Variant + fmt.Sprint(e.Waiters) + e.FetcherHdr + ","
 	}
 	r.Distinct(sig)
 	if hi < 5 {
@@ -358,7 +379,7 @@ func cancelClient(c *hx.Client) {
 func c02(r *hx.Run) {
 	r.MaxViol = 3 // violations here usually cost a watchdog period each
 	r.Level = "fault_enumeration"
-	r.Rule = "quick: every fetch outcome {cacheable, uncacheable, 5xx, upstream protocol error, cacheable headers with an undecodable body (no response object), hang > ProxyTimeout (504), panic at the proxy hook, truncated upstream body (net/http abort panic), fetcher's client drops its connection, cacheable response announced as gzip whose bytes are no gzip stream} x every waiter position {parked, one waiter registered but not yet receiving, the same + purge of the key, arriving after completion} x repeats; thorough adds random outcome sequences of length 2-6 on one key. Verdict at quiescence on hooked entry state (status, registered waiters), on every request having returned, and on a follow-up request. Non-trivial = history in which >=1 waiter was parked; distinct = (outcome,variant,waiters) sequence."
+	r.Rule = "quick: every fetch outcome {cacheable, uncacheable, 5xx, upstream protocol error, cacheable headers with an undecodable body (no response object), hang > ProxyTimeout (504), panic at the proxy hook, truncated upstream body (net/http abort panic), fetcher's client drops its connection, cacheable response announced as gzip whose bytes are no gzip stream} x every waiter position {parked, one waiter registered but not yet receiving, the same + purge of the key, arriving after completion} x repeats (every second repeat the fetcher's own request carries Range / If-Range / If-None-Match / If-Modified-Since); thorough adds random outcome sequences of length 2-6 on one key. Verdict at quiescence on hooked entry state (status, registered waiters), on every request having returned, and on a follow-up request. Non-trivial = history in which >=1 waiter was parked; distinct = (outcome,variant,waiters) sequence."
 	r.Assume = []string{"virtual clock, hook points (tag-guarded)", "ProxyTimeout 200ms so that a hanging upstream ends the fetch", "-race build"}
 	rnd := rand.New(rand.NewSource(r.Seed))
 	w := newSimpleWorld(r, hx.SimpleCfg{CacheName: "c02", CacheSize: 16, HitForPass: "2s", Timeout: "200ms"}, 1, true)
@@ -373,7 +394,12 @@ func c02(r *hx.Run) {
 				if r.TooMany() {
 					break
 				}
-				c02History(r, w, rnd, hi, []c02Epoch{{oc, 1 + rnd.Intn(6), v}})
+				fh := ""
+				if rep%2 == 1 {
+					fh = []string{"range", "if_none_match", "if_modified_since", "if_range"}[(hi+rep/2)%4]
+					r.Add("fetchers_with_conditional_or_range_headers", 1)
+				}
+				c02History(r, w, rnd, hi, []c02Epoch{{oc, 1 + rnd.Intn(6), v, fh}})
 				hi++
 			}
 		}
@@ -387,7 +413,11 @@ func c02(r *hx.Run) {
 			if oc == "hang" && rnd.Intn(3) != 0 {
 				oc = "abort" // keep the wall clock of 200 ms timeouts bounded
 			}
-			eps = append(eps, c02Epoch{oc, rnd.Intn(9), variants[rnd.Intn(len(variants))]})
+			fh := ""
+			if rnd.Intn(3) == 0 {
+				fh = []string{"range", "if_none_match", "if_modified_since", "if_range"}[rnd.Intn(4)]
+			}
+			eps = append(eps, c02Epoch{oc, rnd.Intn(9), variants[rnd.Intn(len(variants))], fh})
 		}
 		c02History(r, w, rnd, hi, eps)
 		hi++
